@@ -66,6 +66,11 @@ CLAIMED = {
         text="Structural clauses only: on a grid of PEP 427 file-name shapes parse_wheel_tags equals the PEP 427 split and malformed names raise InvalidWheelFilename (TagsError+ValueError); every Platform.choices() entry parses, documented aliases resolve to their targets, Platform.parse(str(p)) == p on the family table. Agreement with packaging.utils.parse_wheel_filename on name/version validation is not decided.",
         note="trusts: PEP 427 split; docstring as the alias documentation",
         ref="DESIGN.md §4 C18", thorough=True),
+    "C06": dict(
+        technique="static analysis: bounded abstract interpretation of __str__/_simplified_form and parse_version_specifier/_from_pkg_specifier from source over a structured pool of version shapes (packaging replaced by a PEP 440 model); token-agreement rule",
+        text="Necessary conditions, bounded: for every half-line, range (all inclusivities), point range, complement and operator result over a 21-version pool covering release lengths, trailing zeros, pre/post/dev and epochs, the interpreted str() does not raise, is accepted by the modelled specifier grammar and parses back to an object equal under the interpreted __eq__; renderer/parser special tokens agree. One known finding (lossy '~=' when the dropped bound is a post-release; pinned by the existing tests). Real packaging acceptance and shapes outside the pool are not decided.",
+        note="trusts: vsa/pkgmodel.py as PEP 440 (parse, order, normal form, specifier grammar)",
+        ref="DESIGN.md §4 C06", thorough=True),
 }
 
 NOT_APPLICABLE = {
